@@ -182,6 +182,9 @@ class Executor(EvalMixin, StmtMixin):
             tm = self.world.repo.module(sub)
             return self.global_name(name, tm)
         full = mn + '.' + name
+        ov = self.path.__dict__.get('module_overrides', {}).get(full)
+        if ov is not None:
+            return ov
         if mn.split('.')[0] in CONST_MODULES:
             try:
                 pm = importlib.import_module(mn)
